@@ -54,7 +54,7 @@ static inline std::vector<uint8_t> wk_marshal_env(RunEnv& env, int view, int ok,
     if (n == 0 || n > (1u << 20)) env.fail("C15", "length:get_marshalled_length", strf("get_marshalled_length returned %zu", n));
     std::vector<uint8_t> out;
     for (int pass = 0; pass < 2; pass++) {
-        uint8_t fill = pass ? 0x5A : 0xA5; size_t pad = R.info.sanitized ? 0 : 64;
+        uint8_t fill = pass ? 0x5A : 0xA5; size_t pad = (R.info.sanitized && pass == (env.focus == "C17" ? 0 : 1)) ? 0 : 256;   // one pass with canary bytes after the reported length (C15 judges), one under ASan with the block ending at the reported length (C17 judges; first when C17 is the property being checked)
         static const size_t offs[] = {0, 1, 8, 0, 5, 0, 2, 12};
         MBytes b(n + pad, offs[(n + (size_t) ok + (size_t) pass) % 8], fill);
         R.jv_wk_marshal(view, ok, b.p, obj, comp);
